@@ -84,6 +84,28 @@ fn expressions(tier: Tier, seed: u64) -> (Vec<(String, &'static str)>, Vec<serde
         }
     }
     fams.push(json!({"family": "negation nesting: [[X]], [[^X]], [^[X]], [^[^X]], [^[^[^X]]], ... and two-item variants with a doubly negated member", "expressions": e.len() - n0, "exhaustive": true}));
+    // literal escapes and ranges: every spelling of a literal is that one character; range bounds at
+    // the edges of the scalar value space (0, the surrogate gap, the BMP/astral border, 10FFFF)
+    let n0 = e.len();
+    let esc = [
+        "\\x2E", "\\u{2E}", "\\x{2e}", "\\U0000002E", "\\x41", "\\u{e9}", "\\n", "\\t", "\\-", "\\]", "\\\\", "\\^", "\\x00", "\\u{10FFFF}", "\\u{D7FF}", "\\u{E000}",
+        "a-a", "\\u{0}-\\u{0}", "\\u{0}-\\u{10FFFF}", "\\u{0}-\\u{FFFF}", "\\u{D7FF}-\\u{E000}", "\\u{D000}-\\u{F000}", "\\u{E000}-\\u{FFFF}", "\\u{FFFF}-\\u{10000}", "\\u{1F600}-\\u{1F64F}",
+        "\\u{10FFFE}-\\u{10FFFF}", "\\u{10000}-\\u{10FFFF}", "!-/", "\\t-\\r", "\\u{7F}-\\u{A0}", "\\x2D-\\x2F", "+--",
+    ];
+    for x in esc {
+        e.push((format!("[{x}]"), "escapes-ranges"));
+        e.push((format!("[^{x}]"), "escapes-ranges"));
+        e.push((format!("[a{x}]"), "escapes-ranges"));
+        e.push((format!("[{x}&&[^a]]"), "escapes-ranges"));
+        e.push((format!("[\\w--{x}]"), "escapes-ranges"));
+        e.push((format!("[{x}~~\\u{{0}}-\\u{{E000}}]"), "escapes-ranges"));
+        e.push((format!("[^{x}[^b-é]]"), "escapes-ranges"));
+        for y in ["\\x2E", "\\u{D7FF}-\\u{E000}", "\\u{0}-\\u{FFFF}"] {
+            e.push((format!("[{x}{y}]"), "escapes-ranges"));
+            e.push((format!("[{x}--{y}]"), "escapes-ranges"));
+        }
+    }
+    fams.push(json!({"family": "literal escapes (\\x2E, \\u{..}, \\n, \\-, ...) and ranges with bounds at 0, the surrogate gap, U+FFFF/U+10000 and U+10FFFF, alone, negated, in unions and under &&, --, ~~", "expressions": e.len() - n0, "exhaustive": true}));
     // named atoms in contexts
     let n0 = e.len();
     for (pos, neg) in named_atoms() {
